@@ -22,6 +22,7 @@ THEOREMS = [_T + n for n in [
     "first_grid_point_after_now", "updateNext_frame", "iter_on_grid", "iter_strictly_increasing",
     "periodSec_jitter_bounds", "next_strictly_later_jitter", "not_before_now_jitter", "at_most_ahead_jitter",
     "inv_init", "step_inv", "no_overlap", "inv_run", "stop_prevents_runs", "stop_clears", "stop_disarms",
+    "stop_in_iteration_prevents_run", "iter_nil_eq_fire", "actStep_eq",
     "ctor_accepts_any_period", "ctor_spec", "ctor_on_grid",
 ]]
 TRUSTED = [
@@ -40,12 +41,19 @@ ASSUMPTIONS = [
     "machine programs call start() only on an idle PeriodicCallback (not running, nothing in flight): theorem hypothesis "
     "`WF`; double start()/restart while a coroutine invocation is pending arms a second timer chain (see docs/C39.md)",
     "machine runs use dyadic periods and clock values so that float arithmetic is exact and traces compare exactly",
+    "shared loop iterations (op `iter`): one foreign timer per iteration; timers with different deadlines fire in deadline "
+    "order (asyncio); for EQUAL deadlines the order is whatever asyncio's heap yields (not always registration order when "
+    "cancelled handles linger) - the harness observes which of the two ran first and hands that order to the model; "
+    "start() from a foreign callback only when idle and never in the window between the timer handle and the body of _run",
 ]
 RULE = ("every case constructs the object with its period given as float ms, int ms or datetime.timedelta (35-40% timedelta: "
         "sub-millisecond, non-integral and whole milliseconds, boundary values around 1 us / 1 ms); ctor: constructor-only "
         "boundary list; arith: periods log-uniform 1us..1day + round values, epoch-scale starts, clock sequences mixing small steps, exact "
         "multiples, equal-to-schedule, backwards jumps, long gaps, jitter in [0,1]; machine: op programs over "
-        "start/stop/fire/sleep/complete with sync, raising and coroutine callbacks; non-trivial = arith case with a catch-up "
+        "start/stop/fire/sleep/complete/iter with sync, raising and coroutine callbacks, iter = a loop iteration the periodic "
+        "timer shares with a foreign timer calling stop()/start()/blocking (same deadline registered before or after the tick, "
+        "earlier/later overdue deadline, direct call between handle and task start; lateness 0, <1 period, >1 period) - random "
+        "programs plus a systematic window stream (prefix x callback kind x realisation x lateness x calls); non-trivial = arith case with a catch-up "
         "step that skips >=1 period or a backwards clock, machine case with a coroutine in flight across another op")
 EXHAUSTIVE = {"quick": False, "thorough": False}
 CLAUSES = {
@@ -57,7 +65,9 @@ CLAUSES = {
     "not before the current time up to floating-point rounding": "not_before_now(_jitter) over Q; floats: tie only (Spec.stepViolations with tolerance)",
     "at most one period after the current time while the clock has not gone backwards": "at_most_one_period_ahead, first_grid_point_after_now, at_most_ahead_jitter",
     "a coroutine callback is never started while its previous invocation is still running": "no_overlap (+ inv_run, step_inv)",
-    "stop prevents further runs": "stop_prevents_runs, stop_clears, stop_disarms",
+    "stop prevents further runs": "stop_prevents_runs, stop_clears, stop_disarms, stop_in_iteration_prevents_run (a stop() "
+        "made by a foreign callback in the loop iteration of the periodic timer, before the handle or between the handle "
+        "and the body of the async _run)",
 }
 PARALLEL = False
 CASE_TIMEOUT = 20
@@ -199,6 +209,83 @@ def _gen_exact(rng):
     return _with_period(rng, case, ct)
 
 
+ACTS_POOL = [[["stop"]], [["stop"]], [["stop"]], [["block", 0.0625], ["stop"]], [["stop"], ["block", 0.25]], [["stop"], ["stop"]],
+             [["block", 0.5]], []]
+
+
+def _gen_iter(rng, p, pending, inflight):
+    """one `iter` op: [iter, late, off, reg, acts]; foreign timer at (tick deadline + off), reg = before|after|direct"""
+    late = rng.choice([0.0, 0.0, 0.0625, p, 2 * p + 0.0625, 5.0])
+    reg = rng.choice(["before", "after", "after", "direct"])
+    side = rng.random()
+    if reg == "direct" or side < 0.45:
+        off = 0.0                                           # same deadline as the tick
+    elif side < 0.7:
+        off = -rng.choice([0.015625, 0.0625, p, 3.0])      # earlier deadline, both overdue: foreign first
+    else:
+        off = rng.choice([0.015625, late, late / 2]) if late > 0 else 0.0
+        off = min(off, late)
+    acts = [list(a) for a in rng.choice(ACTS_POOL)]
+    if off < 0 and reg != "direct" and pending and inflight == 0 and rng.random() < 0.25:
+        acts = [["stop"], ["start"]] if rng.random() < 0.7 else [["stop"], ["block", 0.125], ["start"]]
+    return ["iter", late, off, reg, acts]
+
+
+def _track_iter(op, st, kq):
+    """generator-side bookkeeping (running, inflight, pending) for an iter op"""
+    running, inflight, pending = st
+    if not pending:                                         # no live tick: the foreign callback runs on its own
+        return (False, inflight, False) if any(a[0] == "stop" for a in op[4]) else st
+    last = [a[0] for a in op[4] if a[0] in ("stop", "start")]
+    if last and last[-1] == "stop":
+        return (False, inflight, False)
+    if last and last[-1] == "start":
+        return (True, inflight, True)                      # only generated ahead of the tick: old handle cancelled
+    kd = kq.pop(0) if kq else "sync"
+    if kd == "coro":
+        return (running, inflight + 1, False)
+    return (running, inflight, True)
+
+
+def _window_cases():
+    """systematic stream around 'stop() in the loop iteration of the tick': prefix x kind of the invocation that would
+    start x realisation of the foreign callback x lateness x what it calls; then fire / restart / fire"""
+    p_ms, p = 250.0, 0.25
+    prefixes = [
+        ([["start"]], []),
+        ([["start"], ["fire"]], ["sync"]),
+        ([["start"], ["sleep", 0.8125]], []),
+        ([["start"], ["fire"], ["sleep", 0.0625], ["complete", 0, True]], ["coro"]),
+        ([["start"], ["stop"], ["sleep", 0.0625], ["start"]], []),
+        ([["start"], ["fire"], ["stop"], ["start"]], ["raise"]),
+    ]
+    modes = [("before", 0.0), ("after", 0.0), ("after", -0.0625), ("after", -p), ("after", 0.015625), ("after", "late"),
+             ("direct", 0.0)]
+    actss = [[["stop"]], [["block", 0.0625], ["stop"]], [["stop"], ["block", 0.375]], [["stop"], ["stop"]], [["block", 0.5]], []]
+    for pre, pk in prefixes:
+        for kd in KINDS:
+            for reg, off in modes:
+                for late in (0.0, 0.0625, p + 0.0625):
+                    if off == "late" or (isinstance(off, float) and off > 0):
+                        if late == 0.0:
+                            continue
+                    o = late if off == "late" else off
+                    for acts in actss:
+                        stopped = any(a[0] == "stop" for a in acts)
+                        tail = [["fire"]] + ([["start"], ["fire"]] if stopped else
+                                             ([["complete", 0, True], ["fire"]] if kd == "coro" else [["fire"]]))
+                        yield {"kind": "machine", "ct": _h(p_ms), "kinds": pk + [kd, "sync", "coro"],
+                               "ops": [list(x) for x in pre] + [["iter", late, o, reg, [list(a) for a in acts]]] + tail,
+                               "stream": "window"}
+    # stop();start() ahead of the tick (earlier deadline): the old handle is cancelled, one chain continues
+    for pre, pk in prefixes:
+        for late in (0.0, 0.3125):
+            for acts in ([["stop"], ["start"]], [["stop"], ["block", 0.125], ["start"]]):
+                yield {"kind": "machine", "ct": _h(p_ms), "kinds": pk + ["sync", "coro"],
+                       "ops": [list(x) for x in pre] + [["iter", late, -0.0625, "after", acts], ["fire"], ["fire"]],
+                       "stream": "window"}
+
+
 def _gen_machine(rng, maxops=14):
     """admissible programs: `start` only when idle; everything else anywhere"""
     td_us = rng.choice(DYADIC_US) if rng.random() < 0.4 else None
@@ -208,7 +295,11 @@ def _gen_machine(rng, maxops=14):
     kq = list(kinds)
     for _ in range(rng.randint(2, maxops)):
         k = rng.random()
-        if not running and inflight == 0 and k < 0.5:
+        if rng.random() < (0.14 if pending else 0.01):
+            op = _gen_iter(rng, ct / 1000.0, pending, inflight)
+            ops.append(op)
+            running, inflight, pending = _track_iter(op, (running, inflight, pending), kq)
+        elif not running and inflight == 0 and k < 0.5:
             ops.append(["start"]); running, pending = True, True
         elif k < 0.12:
             ops.append(["stop"]); running, pending = False, False
@@ -265,6 +356,14 @@ def gen_cases(rng, tier):
         yield _gen_exact(rng)
     for _ in range(n_ma):
         yield _gen_machine(rng)
+    win = list(_window_cases())
+    if tier == "thorough":
+        yield from win
+    else:                                   # a fixed stride (every realisation x calls combination shows up) + random picks
+        k = rng.randrange(5)
+        yield from win[k::5]
+        for _ in range(60):
+            yield rng.choice(win)
 
 
 # ------------------------------------------------------------------------------------------ implementation
@@ -379,11 +478,38 @@ def _run_machine(case):
                 updates.append([_h(before), _h(current_time), _h(pc._next_timeout)])
             pc._update_next = upd
             orig_add = lp.io_loop.add_timeout
+            slots = any(o[0] == "iter" and o[3] == "before" and o[2] == 0 for o in case["ops"])
+            ticks, fired, slot_cb = [], {}, {}
 
             def add_timeout(deadline, callback, *a, **k):
+                if callback != pc._run:
+                    return orig_add(deadline, callback, *a, **k)
                 events.append(["sched", _h(deadline)])
-                return orig_add(deadline, callback, *a, **k)
+                aid = len(ticks)
+                if slots:
+                    # a foreign timer with the same deadline, registered BEFORE the periodic one (a no-op unless an
+                    # `iter` op with reg = before hands it something to do)
+                    orig_add(deadline, lambda aid=aid: slot_cb.pop(aid, lambda: None)())
+
+                def run_wrapped(aid=aid):
+                    fired[aid] = True
+                    return callback()
+                hd = orig_add(deadline, run_wrapped, *a, **k)
+                ticks.append(hd)
+                return hd
             lp.io_loop.add_timeout = add_timeout
+
+            def live_ticks():
+                """(deadline, arm id) of the periodic timers that can still fire"""
+                return sorted((hd.when(), aid) for aid, hd in enumerate(ticks) if not hd.cancelled() and not fired.get(aid))
+
+            def do_act(a):
+                if a[0] == "stop":
+                    pc.stop()
+                elif a[0] == "start":
+                    pc.start()
+                else:
+                    lp._vtime += a[1]
 
             def settle():
                 for _ in range(60):
@@ -396,16 +522,52 @@ def _run_machine(case):
             try:
                 for op in case["ops"]:
                     mark = len(events)
-                    if op[0] == "start":
+                    order = None
+                    if op[0] == "iter":
+                        late, off, reg, acts = max(op[1], 0.0), min(op[2], max(op[1], 0.0)), op[3], op[4]
+                        tk = live_ticks()
+                        if tk:
+                            dl, aid = tk[0]
+                            ran = []
+
+                            def foreign(aid=aid, acts=acts, ran=ran):
+                                ran.append("post" if fired.get(aid) else "pre")
+                                for a in acts:
+                                    do_act(a)
+                            target = max(lp._vtime, dl + late)
+                            if reg == "direct":
+                                lp._vtime = target
+                                lp._one_iteration()          # the handle fires: the `_run` task exists, has not started
+                                foreign()
+                                exp = "post"
+                            else:
+                                fd = dl + off
+                                if off == 0 and reg == "before" and aid not in slot_cb and slots:
+                                    slot_cb[aid] = foreign
+                                elif fd >= lp._vtime:
+                                    orig_add(fd, foreign)    # IOLoop.add_timeout / call_at
+                                else:
+                                    lp.call_at(fd, foreign)  # already overdue: asyncio keeps the past deadline
+                                exp = "pre" if fd < dl else "post" if fd > dl else "tie"
+                                lp._vtime = target
+                            settle()
+                            if len(ran) != 1:
+                                raise RuntimeError("foreign callback ran %d times" % len(ran))
+                            order = [exp, ran[0]]
+                        else:                                # no periodic timer pending: the foreign callback on its own
+                            for a in acts:
+                                do_act(a)
+                            settle()
+                    elif op[0] == "start":
                         pc.start(); settle()
                     elif op[0] == "stop":
                         pc.stop(); settle()
                     elif op[0] == "sleep":
                         lp._vtime += op[1]
                     elif op[0] == "fire":
-                        ts = lp.live_timers()
+                        ts = live_ticks()
                         if ts:
-                            lp._vtime = max(lp._vtime, ts[0])
+                            lp._vtime = max(lp._vtime, ts[0][0])
                             settle()
                     elif op[0] == "complete":
                         if op[1] < len(inflight):
@@ -416,8 +578,10 @@ def _run_machine(case):
                                 fut.set_exception(ValueError("late boom"))
                             settle()
                     evs = events[mark:]
-                    out.append({"evs": evs, "running": pc.is_running(), "timers": [_h(t) for t in lp.live_timers()],
+                    out.append({"evs": evs, "running": pc.is_running(), "timers": [_h(t) for t, _ in live_ticks()],
                                 "inflight": [i for i, _ in inflight]})
+                    if order:
+                        out[-1]["order"] = order
                 return {"ctor": rec, "ops": out, "updates": updates}
             finally:
                 pc.stop()      # a broken scheduler must not keep re-arming itself during loop teardown
@@ -471,12 +635,32 @@ def _ctor_impl(impl):
     return exc or "accepted"
 
 
-def _wire_op(op):
+def _iter_before(op, obs):
+    """was the foreign callback ordered before the periodic timer's handle?  Different deadlines: by deadline (asyncio);
+    equal deadlines: as observed (asyncio's heap decides)."""
+    order = (obs or {}).get("order")
+    if order:
+        return (order[1] if order[0] == "tie" else order[0]) == "pre"
+    return op[3] != "direct" and (op[2] < 0 or (op[2] == 0 and op[3] == "before"))
+
+
+def _wire_act(a):
+    return [atom("block"), _q(a[1])] if a[0] == "block" else [atom(a[0])]
+
+
+def _wire_op(op, obs=None):
+    if op[0] == "iter":
+        return [atom("iter"), _q(max(op[1], 0.0)), atom(_iter_before(op, obs)), [_wire_act(a) for a in op[4]]]
     if op[0] == "sleep":
         return [atom("sleep"), _q(op[1])]
     if op[0] == "complete":
         return [atom("complete"), op[1], atom(bool(op[2]))]
     return [atom(op[0])]
+
+
+def _wire_ops(case, impl):
+    obs = impl.get("ops") or []
+    return [_wire_op(o, obs[i] if i < len(obs) else None) for i, o in enumerate(case["ops"])]
 
 
 def _wire_ev(e):
@@ -501,7 +685,7 @@ def model_requests(case, impl):
                 out.append(line(ID, "agrees", *args, _q(st["after"]), _ulp(st["after"])))
         return out
     return [_ctor_line(case, impl),
-            line(ID, "machine", _ctq(case), [1000, 1], [atom(k) for k in case["kinds"]], [_wire_op(o) for o in case["ops"]])]
+            line(ID, "machine", _ctq(case), [1000, 1], [atom(k) for k in case["kinds"]], _wire_ops(case, impl))]
 
 
 def _plain(v):
@@ -579,7 +763,7 @@ def spec_requests(case, impl):
         return out
     if not impl["ops"] and case["ops"]:
         return [ctor]
-    out = [ctor, line(ID, "trace", [_wire_op(o) for o in case["ops"]], [[_wire_ev(e) for e in o["evs"]] for o in impl["ops"]])]
+    out = [ctor, line(ID, "trace", _wire_ops(case, impl), [[_wire_ev(e) for e in o["evs"]] for o in impl["ops"]])]
     for before, now, after in impl["updates"]:
         out.append(line(ID, "spec", _ctq(case), [0, 1], _q(before), _q(now), _q(after), [0, 1]))
     return out
@@ -650,6 +834,8 @@ def nontrivial(case, impl):
                     return True
         return False
     infl = [bool(o["inflight"]) for o in impl["ops"]]
+    if any(op[0] == "iter" and o.get("order") and any(a[0] == "stop" for a in op[4]) for op, o in zip(case["ops"], impl["ops"])):
+        return True                         # a stop() really shared a loop iteration with a live periodic timer
     return any(a and b for a, b in zip(infl, infl[1:]))
 
 
@@ -682,6 +868,18 @@ def stats(case, impl):
                 out.append("ev:" + e[0])
             if op[0] == "stop" and o["inflight"]:
                 out.append("stop-while-in-flight")
+            if op[0] == "iter":
+                od = o.get("order")
+                if not od:
+                    out.append("iter:no-live-timer")
+                    continue
+                calls = "+".join(a[0] for a in op[4]) or "nothing"
+                where = "before-handle" if od[1] == "pre" else "between-handle-and-run"
+                out.append("iter:%s:%s" % (where, calls))
+                out.append("iter:how:" + ("direct" if op[3] == "direct" else
+                                          "same-deadline-registered-%s->ran-%s" % (op[3], od[1]) if od[0] == "tie" else
+                                          "earlier-deadline" if od[0] == "pre" else "later-deadline-overdue"))
+                out.append("iter:late:" + ("0" if op[1] == 0 else "<period" if op[1] < _f(case["ct"]) / 1000.0 else ">=period"))
     return out
 
 
@@ -702,6 +900,12 @@ def shrink(case):
         ops = case["ops"]
         for i in range(len(ops)):
             yield {**case, "ops": ops[:i] + ops[i + 1:]}
+        for i, op in enumerate(ops):
+            if op[0] == "iter":
+                for j in range(len(op[4])):
+                    yield {**case, "ops": ops[:i] + [op[:4] + [op[4][:j] + op[4][j + 1:]]] + ops[i + 1:]}
+                if op[1]:
+                    yield {**case, "ops": ops[:i] + [["iter", 0.0, min(op[2], 0.0), op[3], op[4]]] + ops[i + 1:]}
         if case["kinds"]:
             yield {**case, "kinds": case["kinds"][:-1]}
 
